@@ -5,7 +5,8 @@
       of a connection, over ALL sequences of packets (any decryption verdict, any packet number in [0, 2^62), any payload
       effects incl. acknowledgements of our ACK frames, errors, discards in the middle of a payload) and sends;
    4. consequences: ack_at_implies_queue_nonempty, ack_writer_never_raises_composed, recorded_only_after_processing;
-   5. the variant: record_before_payload_refuted. *)
+   5. the variant: record_before_payload_refuted;
+   6. the atomic Recv op of model/AckQueue.v is the composed packet (recv_packet_refines). *)
 From Coq Require Import ZArith List Bool Lia ZifyBool.
 From AQ Require Import lib.Base lib.Tok model.Codec model.Varint model.RangeSet model.AckFrame gen.C12Consts gen.C12RecvOrder
   model.AckQueue model.RecvAck proofs.RangeSetP proofs.AckQueueP.
@@ -472,4 +473,98 @@ Qed.
 Example ex_creach : creach (crun rinit closing_witness) /\ creach (crun rinit first_witness).
 Proof.
   split; (apply crun_reach; [apply creach_init|]); cbn; unfold pn_ok; repeat split; lia.
+Qed.
+
+(* ---- 6. the atomic Recv op of model/AckQueue.v IS the composed packet -------------------------------------------------- *)
+(* payloads that touch the acknowledgement state only through acknowledgements of our ACK frames *)
+Fixpoint fx_plain (fs : list fx) : bool :=
+  match fs with
+  | [] => true
+  | FxAck _ :: t | FxFrame _ :: t => fx_plain t
+  | FxError :: _ => true
+  | _ => false
+  end.
+Fixpoint fx_acks (fs : list fx) : list Z :=
+  match fs with
+  | FxAck h :: t => h :: fx_acks t
+  | FxFrame _ :: t => fx_acks t
+  | _ => []
+  end.
+Fixpoint fx_elic (fs : list fx) (e : bool) : bool :=
+  match fs with
+  | FxAck _ :: t => fx_elic t e
+  | FxFrame b :: t => fx_elic t (e || b)
+  | _ => e
+  end.
+Fixpoint fx_raised (fs : list fx) (found : bool) : bool :=
+  match fs with
+  | [] => negb found
+  | FxAck _ :: t => fx_raised t found
+  | FxFrame _ :: t => fx_raised t true
+  | _ => true
+  end.
+
+Lemma rupd_ext c i f g : f (rget c i) = g (rget c i) -> rupd c i f = rupd c i g.
+Proof. destruct c as [[a b] d]. destruct i; cbn; intros ->; reflexivity. Qed.
+Lemma rupd_same c i f : f (rget c i) = rget c i -> rupd c i f = c.
+Proof. destruct c as [[a b] d]. destruct i; cbn; intros ->; reflexivity. Qed.
+
+Lemma payload_loop_plain i fs : forall c e f, fx_plain fs = true ->
+  (forall h, In h (fx_acks fs) -> known_handler (spc c i) h = true) ->
+  match delivers (aq (spc c i)) (fx_acks fs) with
+  | Ok q => payload_loop c i fs e f = Ok (rupd c i (on_sp (fun s => set_aq s q)), fx_elic fs e, fx_raised fs f)
+  | Err k => payload_loop c i fs e f = Err k
+  end.
+Proof.
+  induction fs as [|x r IH]; intros c e f P K.
+  - cbn. rewrite rupd_same; [reflexivity|]. unfold on_sp, spc. destruct (rget c i) as [s ex]. cbn. destruct s; reflexivity.
+  - destruct x; cbn [fx_plain] in P; try discriminate.
+    + cbn [fx_acks delivers payload_loop fx_apply fx_elic fx_raised]. unfold ack_of.
+      rewrite (K h (or_introl eq_refl)).
+      destruct (deliver (aq (spc c i)) h) as [q1|k] eqn:E; cbn [bind]; [|reflexivity].
+      set (c1 := rupd c i (on_sp (fun _ => set_aq (spc c i) q1))).
+      assert (S1 : spc c1 i = set_aq (spc c i) q1) by (subst c1; rewrite spc_rupd, sid_eqb_refl; reflexivity).
+      specialize (IH c1 e f P). rewrite S1 in IH. cbn [aq set_aq] in IH.
+      assert (K1 : forall h0, In h0 (fx_acks r) -> known_handler (set_aq (spc c i) q1) h0 = true).
+      { intros h0 H0. apply (K h0). right. exact H0. }
+      specialize (IH K1).
+      destruct (delivers q1 (fx_acks r)) as [q|k]; [|exact IH].
+      rewrite IH. subst c1. rewrite rupd_rupd. f_equal. f_equal. f_equal. apply rupd_ext. reflexivity.
+    + cbn [fx_acks payload_loop fx_elic fx_raised]. apply IH; auto.
+    + cbn. rewrite rupd_same; [reflexivity|]. unfold on_sp, spc. destruct (rget c i) as [s ex]. cbn. destruct s; reflexivity.
+Qed.
+
+Lemma spc_pre_payload c i pn t j :
+  spc (pre_payload c i pn t) j = if sid_eqb i j then set_clk (spc c i) t else spc c j.
+Proof.
+  unfold pre_payload. rewrite rupd_rupd. unfold spc. rewrite rget_rupd. destruct (sid_eqb i j); reflexivity.
+Qed.
+
+(* for a payload that only acknowledges ACK frames that were written (the premise of AckQueueP.reach) the state of the
+   packet's space after the composed packet is exactly AckQueue.recv with dels = the acknowledgements in payload order,
+   elic / ok as the frame loop computes them; the other spaces only learn about a close *)
+Theorem recv_packet_refines_l c i pn fs t d : fx_plain fs = true ->
+  (forall h, In h (fx_acks fs) -> known_handler (spc c i) h = true) -> closing (spc c i) = false ->
+  let elic := fx_elic fs false in
+  let ok := negb (fx_raised fs false) in
+  match recv (spc c i) pn elic t d (fx_acks fs) ok with
+  | Ok s' => exists c', recv_packet c i (VPlain pn false) fs t d = Ok c' /\ spc c' i = s' /\
+               forall j, j <> i -> spc c' j = if ok then spc c j else set_closing (spc c j)
+  | Err k => recv_packet c i (VPlain pn false) fs t d = Err k
+  end.
+Proof.
+  intros P K C0 elic ok. rewrite recv_packet_closed. unfold recv_closed. rewrite C0. fold (pre_payload c i pn t).
+  pose proof (payload_loop_plain i fs (pre_payload c i pn t) false false P) as L.
+  rewrite spc_pre_payload, sid_eqb_refl in L. cbn [aq set_clk] in L.
+  specialize (L K). unfold recv. unfold payload_received.
+  destruct (delivers (aq (spc c i)) (fx_acks fs)) as [q|k]; [|rewrite L; reflexivity].
+  rewrite L. cbn [bind]. subst elic ok. rewrite C0.
+  destruct (fx_raised fs false) eqn:R; cbn [negb andb].
+  - rewrite spc_rall, spc_rupd, sid_eqb_refl. cbn [closing set_closing]. eexists. split; [reflexivity|]. split.
+    + rewrite spc_rall, spc_rupd, sid_eqb_refl, spc_pre_payload, sid_eqb_refl. reflexivity.
+    + intros j Hj. rewrite spc_rall, spc_rupd, (sid_neq _ _ Hj), spc_pre_payload, (sid_neq _ _ Hj). reflexivity.
+  - rewrite spc_rupd, sid_eqb_refl, spc_pre_payload, sid_eqb_refl. cbn [closing set_aq set_clk]. rewrite C0.
+    eexists. split; [reflexivity|]. split.
+    + rewrite spc_rupd, sid_eqb_refl, spc_rupd, sid_eqb_refl, spc_pre_payload, sid_eqb_refl, tail_record. reflexivity.
+    + intros j Hj. rewrite spc_rupd, (sid_neq _ _ Hj), spc_rupd, (sid_neq _ _ Hj), spc_pre_payload, (sid_neq _ _ Hj). reflexivity.
 Qed.
